@@ -400,7 +400,7 @@ async def run_schedule(rec, scen, sched_seed, case):
             pp = R.unpack(hchain[-2]) if h >= 2 else None
             target = R.next_target(MAXT, pp, prev)
             bits, prev_hash = R.target_to_compact(target), R.header_hash(hchain[-1])
-        hchain.append(R.mine(1, prev_hash, root, bytes(32), 1_600_000_000 + 900 * h, bits, target))
+        hchain.append(R.mine(1, prev_hash, root, bytes(32), 1_600_000_000 + 900 * h, bits, min(target, R.compact_to_target(bits))))
         return hchain[-1]
     g = mine_header(bytes(32))
 
